@@ -8,7 +8,8 @@
 (* (Shutdown!ObligationsHold); the mechanism variables are not used here.  *)
 (*                                                                         *)
 (* Lines: Case{cls,tp,waitMs,conns,hooks,second,...}; Dial{c};             *)
-(* Connected{c}; DialFailed{c}; Accept{c}; HandlerEnter{c,r};              *)
+(* Connected{c}; DialFailed{c}; Accept{c}; OnConnect{c};                   *)
+(* HandlerEnter{c,r};                                                      *)
 (* HandlerExit{c,r,running}; ResponseComplete{c,r,close,bytesOk};          *)
 (* ResponseNone{c,r}; SendFailed{c,r}; ShutdownCall{k};                    *)
 (* ShutdownReturn{k,err,elapsedMs}; HookStart{h}; HookEnd{h};              *)
@@ -47,6 +48,7 @@ ObsReset == /\ oBegun' = FALSE /\ oReturned' = FALSE
             /\ oMust' = [c \in TConns |-> FALSE]
             /\ oHS' = {} /\ oHE' = {}
             /\ oCall' = [k \in TCallers |-> "no"] /\ oRet' = [k \in TCallers |-> None]
+            /\ oPre' = {} /\ oEarly' = FALSE
 
 TraceInit == /\ status = "init" /\ listening = FALSE /\ active = 0
              /\ conn = [c \in Conns |-> None] /\ avail = [c \in Conns |-> None] /\ sent = [c \in Conns |-> 0]
@@ -70,8 +72,16 @@ TraceCase == /\ ~InCase /\ HasLine /\ Line.ev = "Case"
 
 \* events that carry no obligation
 TraceInfo == /\ InCase /\ HasLine
-             /\ Line.ev \in {"Connected", "DialFailed", "Accept", "SendFailed", "ResponseNone", "RunReturn"}
+             /\ Line.ev \in {"Connected", "DialFailed", "SendFailed", "ResponseNone", "RunReturn"}
              /\ Same /\ Consume
+
+\* the transport ran the OnAccept / OnConnect callback for connection c ("accepted" binds here, not at handler
+\* start).  OnAccept of the netpoll transport runs before netpoll has registered the connection, so only OnConnect
+\* binds there; c = -1 is a connection the driver could not attribute.
+TraceAccept == /\ InCase /\ HasLine /\ Line.ev \in {"Accept", "OnConnect"}
+               /\ IF Line.c \in TConns /\ (Line.ev = "OnConnect" \/ cur.tp = "standard")
+                  THEN ObsAccept(Line.c) ELSE UNCHANGED ovars
+               /\ UNCHANGED cur /\ Consume
 
 TraceDial == /\ Ev("Dial") /\ OkDial(Line.c) /\ ObsDial(Line.c) /\ UNCHANGED cur /\ Consume
 
@@ -87,7 +97,8 @@ TraceResponse == /\ Ev("ResponseComplete") /\ OkResponse(Line.c, Line.r, Line.cl
 TraceCall == /\ Ev("ShutdownCall") /\ OkCall(Line.k) /\ ObsCall(Line.k, ServerIsRun) /\ UNCHANGED cur /\ Consume
 
 TraceReturn == /\ Ev("ShutdownReturn") /\ Line.err \in {"nil", "notRunning", "other"} /\ Line.elapsedMs >= 0
-               /\ OkReturn(Line.k, Line.err, Line.elapsedMs, cur.waitMs, AllHooks) /\ ObsReturn(Line.k, Line.err)
+               /\ OkReturn(Line.k, Line.err, Line.elapsedMs, cur.waitMs, AllHooks)
+               /\ ObsReturn(Line.k, Line.err, Line.elapsedMs < cur.waitMs)
                /\ UNCHANGED cur /\ Consume
 
 TraceHookStart == /\ Ev("HookStart") /\ OkHookStart(Line.h, AllHooks) /\ ObsHookStart(Line.h) /\ UNCHANGED cur /\ Consume
@@ -104,7 +115,7 @@ TraceRaceTrial == /\ Ev("RaceTrial") /\ cur.cls = "raceN"
 TraceEnd == /\ Ev("End") /\ OkEnd(ServerIsRun, AllHooks)
             /\ cur' = Idle /\ ObsReset /\ Consume
 
-Normal == TraceCase \/ TraceInfo \/ TraceDial \/ TraceHandlerEnter \/ TraceHandlerExit \/ TraceResponse \/ TraceCall
+Normal == TraceCase \/ TraceInfo \/ TraceAccept \/ TraceDial \/ TraceHandlerEnter \/ TraceHandlerExit \/ TraceResponse \/ TraceCall
           \/ TraceReturn \/ TraceHookStart \/ TraceHookEnd \/ TraceDialAfter \/ TraceRaceTrial \/ TraceEnd
 
 NextCase(k) == IF \E j \in k + 1 .. Len(Trace) : Trace[j].ev = "Case"
